@@ -142,7 +142,7 @@ def check_state_section(rep, ctx):
                 if isinstance(flag, Scalar):
                     for c in cm:
                         if any(is_status_getter(r, x, getter, None) for x in c.rargs) and any(isinstance(origin(x), StrV) and origin(x).e.as_string() == "disabled" for x in c.rargs):
-                            rs, _m, _dt, _zm = check_sat(r.pc + [flag.e != z3.Not(c.ret.e) if str(c.callee).endswith("eq") else flag.e != c.ret.e])
+                            rs, _m, _dt, _zm = check_sat(r.pc + [flag.e != z3.Not(c.extra)])
                             if rs == "unsat":
                                 okf = True
                 rep.add(Query("state section path %d: %s is intercepted exactly when this document's %s() is not \"disabled\"" % (i, X, getter), "holds" if okf else "violated", repr(flag)[:120], 0, "mirsym+z3",
@@ -151,7 +151,7 @@ def check_state_section(rep, ctx):
             dis = [c for c in ev if c.kind == "streq" and any(isinstance(origin(x), StrV) and origin(x).e.as_string() == "disabled" for x in c.rargs) and
                    any(derives(x, u.rargs[1], ev) or is_status_getter(r, x, "get_secure_channel_state", None) or same_origin(conv_chain(x)[1], conv_chain(u.rargs[1])[1]) for x in c.rargs)]
             if dis:
-                isdis = dis[-1].ret.e
+                isdis = dis[-1].extra
                 bad = add_query(rep, "state section path %d: new state is disabled => the in-memory key is cleared" % i, r.pc + [updated, isdis, z3.BoolVal(not clr)], key="C09.clear-on-disabled")
                 if bad:
                     rep.add(Query("state section path %d: disabled but key kept" % i, "violated", "", bad[1], "mirsym+z3", key="C09.clear-on-disabled", model=bad[0], reproduced=None))
@@ -186,7 +186,7 @@ def check_key_trigger(rep, ctx):
         ne = [e for e in ev[:first] if e.kind == "call" and re.search(r"Option<.*String.*> as PartialEq>::(ne|eq)$", e.callee)]
         conds = []
         if dis:
-            conds.append(z3.Not(dis[-1].ret.e) if dis[-1].callee.endswith("eq") else dis[-1].ret.e)
+            conds.append(z3.Not(dis[-1].extra))
         trig = []
         if isn:
             trig.append(isn[-1].ret.scalar("bool"))
@@ -232,7 +232,7 @@ def check_wrappers(rep, ctx):
             if not g or not cm or not isinstance(flag, Scalar):
                 rep.add(Query("wrapper %s path %d: shape" % (fn, i), "inconclusive", "getter %d compare %d" % (len(g), len(cm)), 0, "mirsym"))
                 continue
-            same = cm[-1].ret.e
+            same = cm[-1].extra
             okops = any(derives(x, g[0].ret, ev) for x in cm[-1].rargs) and any(new_arg is not None and derives(x, new_arg, ev) for x in cm[-1].rargs)
             bad = add_query(rep, "wrapper %s path %d: reports updated <=> stored value differs from the offered one" % (fn, i), r.pc + [flag.e == same], key="C09.wrapper:" + fn)
             if bad or not okops:
@@ -360,6 +360,8 @@ def check(rep, tier, seed):
                         "Future::poll returns Ready"]
     rep.outside_claim += ["timing of polls", "rule items whose mode is none of enforce/audit/disabled (the state string calls them Disabled while get_*_mode returns the raw text)", "redirector map writes (C06)"]
     rep.trusted += ["mirsym", "z3"]
+    import batteries
+    batteries.confirm(rep, "C09")
 
 
 def replay(path):
